@@ -1,12 +1,14 @@
 (* Props/C13.v -- property C13: outcomes are a function of the election alone.
    Only statements closed by [exact]; proofs in Proofs/InvarianceP.v (sequential Phragmen),
    Proofs/InvarianceGreedyP.v (greedy), Proofs/InvarianceKnapsackP.v (welfare maximiser),
-   Proofs/InvarianceMesP.v and Proofs/InvarianceMesScaleP.v (Equal Shares).  Python's set iteration (hash seed, insertion order) is the explicit
+   Proofs/InvarianceMesP.v, Proofs/InvarianceMesScaleP.v and Proofs/InvarianceMesRunP.v (Equal Shares; the
+   last one goes through the refinement of the textbook rule proved for C02, Proofs/MesSpecRun.v).  Python's set iteration (hash seed, insertion order) is the explicit
    enumeration [enum]/[e1]/[e2]; voters are the entries of the profile in the order the profile object
    enumerates them; "scaled by k" = every cost and the budget multiplied by k > 0. *)
 From PB Require Import Model.Phragmen Model.GreedyRule Model.MaxWelfare Model.MesRule Oracle.C13
   Proofs.InvarianceP Proofs.InvarianceGreedyP Proofs.InvarianceKnapsackP Proofs.InvarianceMesP
-  Proofs.InvarianceMesScaleP.
+  Proofs.InvarianceMesScaleP Proofs.InvarianceMesRunP Proofs.C13OracleP.
+From PB Require Import Spec.MesSpec Proofs.MesWf Proofs.MesFeasible Proofs.InvarianceMesIrrP.
 Open Scope Q_scope.
 
 (* ================================ sequential Phragmen ================================ *)
@@ -174,7 +176,63 @@ Proof.
 Qed.
 Print Assumptions C13_mes_scale_iterated.
 
-(* towards mes_enum_indep -- the content of repair R6: the order in which the scan collected the tied projects
+(* M mes_enum_indep (resolute rule): the selected SET does not depend on the iteration order of the project set
+   (hash seed, insertion order).  [valid_enum x e]: e lists every project of the instance exactly once. *)
+Theorem C13_mes_enum_indep : forall x e2 o1 o2,
+  wf_voters (mi_voters x) -> tcost (mi_inst x) (mi_init x) <= mi_budget x ->
+  valid_enum x (mi_enum x) -> valid_enum x e2 ->
+  mes_resolute x = Some o1 -> mes_resolute (with_enum x e2) = Some o2 ->
+  set_eq (o_alloc o1) (o_alloc o2).
+Proof. exact mes_enum_indep. Qed.
+Print Assumptions C13_mes_enum_indep.
+
+(* M mes_perm_voters (resolute rule): the voters (classes with their multiplicities) listed in another order,
+   tie-breaking keys equal up to == (the approval-score key is a sum over the voters) *)
+Theorem C13_mes_perm_voters : forall x P' tb' o1 o2,
+  wf_voters (mi_voters x) -> tcost (mi_inst x) (mi_init x) <= mi_budget x ->
+  valid_enum x (mi_enum x) ->
+  Permutation (mi_voters x) P' -> (forall q, mi_tb x q == tb' q) ->
+  mes_resolute x = Some o1 -> mes_resolute (with_voters x P' tb') = Some o2 ->
+  set_eq (o_alloc o1) (o_alloc o2).
+Proof. exact mes_perm_voters. Qed.
+Print Assumptions C13_mes_perm_voters.
+
+(* the iterated rule (voter_budget_increment): another enumeration AND another voter order at once -- both runs
+   return allocations that are permutations of each other, or both run out of the loop fuel.
+   [operm a b]: Some o1, Some o2 with Permutation (o_alloc o1) (o_alloc o2), or None, None. *)
+Theorem C13_mes_iterated_presentation_indep : forall x e2 P' tb',
+  wf_voters (mi_voters x) -> valid_enum x (mi_enum x) -> valid_enum x e2 ->
+  Permutation (mi_voters x) P' -> (forall q, mi_tb x q == tb' q) ->
+  forall fuel inc, 0 <= inc -> tcost (mi_inst x) (mi_init x) <= mi_budget x ->
+  operm (mes_iter_resolute fuel x inc) (mes_iter_resolute fuel (with_voters (with_enum x e2) P' tb') inc).
+Proof. exact mes_iter_presentation_indep. Qed.
+Print Assumptions C13_mes_iterated_presentation_indep.
+
+(* the IRRESOLUTE rule: another enumeration and another voter order at once -- the same set of (name-sorted)
+   allocations; via "irresolute = resolute outcomes of all strict orders" (C08) and the resolute theorem.
+   [mes_hyps]: well-formed instance, >= 1 voter, feasible duplicate-free initial allocation (Proofs/MesFeasible.v) *)
+Theorem C13_mes_irresolute_presentation_indep : forall x e2 P' tb' L1 L2,
+  mes_hyps x -> valid_enum x (mi_enum x) -> valid_enum x e2 -> Permutation (mi_voters x) P' ->
+  mes_irresolute x = Some L1 -> mes_irresolute (with_voters (with_enum x e2) P' tb') = Some L2 ->
+  forall X, In X L1 <-> In X L2.
+Proof. exact mes_irresolute_presentation_indep. Qed.
+Print Assumptions C13_mes_irresolute_presentation_indep.
+
+(* ... the rule always answers, so neither statement is vacuous *)
+Theorem C13_mes_answers : forall x, exists o, mes_resolute x = Some o.
+Proof. exact mes_answers. Qed.
+Print Assumptions C13_mes_answers.
+
+(* what carries both: the textbook run (Spec/MesSpec.v) is a FUNCTION of the election -- two runs from two
+   presentations of the same voters-with-money ([SRel]: a joint re-ordering, money equal up to ==) make the same
+   purchases in the same order *)
+Theorem C13_mes_spec_run_functional : forall costs P P' tb tb', (forall q, tb q == tb' q) ->
+  forall b rem W1, spec_run costs P tb b rem W1 ->
+  forall b' W2, spec_run costs P' tb' b' rem W2 -> SRel P b P' b' -> W1 = W2.
+Proof. exact spec_run_functional. Qed.
+Print Assumptions C13_mes_spec_run_functional.
+
+(* the content of repair R6 at the level of the code path: the order in which the scan collected the tied projects
    (set-iteration order within equal cached affordabilities) does not reach the choice *)
 Theorem C13_mes_enum_indep_partial : forall tb tied tied',
   NoDup (map mp_id tied) -> Permutation tied tied' -> pick_order tb tied = pick_order tb tied'.
@@ -211,6 +269,15 @@ Proof.
 Qed.
 Print Assumptions C13_oracle_outv_eqb.
 
+(* ... and a case file that evaluates to no failure code means: for every cross-compared call, ALL recorded
+   outcomes -- every interpreter (hash seed), every presentation (voter order, insertion order, scale, combined),
+   every in-process repetition -- are equal in that sense *)
+Theorem C13_oracle_sound : forall c k, check c = [] -> In k (c_calls c) -> k_cross k = true ->
+  (forall j kd, nth_error (c_pk c) (S j) = Some kd -> (1 <= kd <= 4)%nat) ->
+  forall a b, In a (all_outs k) -> In b (all_outs k) -> outv_eq a b.
+Proof. exact check_sound. Qed.
+Print Assumptions C13_oracle_sound.
+
 (* non-vacuity: the hypotheses are satisfiable and the conclusions are about runs that select something *)
 Example C13_nonvacuous :
   phragmen_res witness_I witness_P (tb_min_cost witness_I) [5; 4; 3; 2; 1; 0]%nat (zero_loads witness_P) []
@@ -221,20 +288,13 @@ Example C13_nonvacuous :
      = Some [4; 5]%nat.
 Proof. repeat split; vm_compute; reflexivity. Qed.
 
-(* UNPROVED  (M theorems of DESIGN.md section 4, C13, that are NOT proved)
+(* UNPROVED  (what DESIGN.md section 4, C13, asks for and is NOT proved)
 
-   Equal Shares (Model/MesRule.v), whole runs:
-     Theorem mes_enum_indep : forall x e2, Permutation (mi_enum x) e2 ->
-       option_map (fun o => canon (o_alloc o)) (mes_resolute (with_enum x e2))
-       = option_map (fun o => canon (o_alloc o)) (mes_resolute x).
-       The scan visits the pool in the stable order of the CACHED affordabilities, so projects with equal
-       cached values are visited in enumeration order and the `break` can fall between them.  The result is
-       independent of that order only because a cached value is a lower bound of the current one
-       (Proofs/MesLazy.v [cache_lb]); its preservation from round to round is not proved yet (also open in
-       Props/C02.v), and the pools of two runs agree only up to projects that have become unaffordable.
-       Proved towards it: C13_mes_enum_indep_partial, C13_mes_enum_indep_partial_start, and the refutation
-       for the pre-R6 code.
-     Theorem mes_perm_voters : Permutation (mi_voters x) P' -> same canon (o_alloc).
-       (supporter indices are positions in the voter list and the stable supporter sort breaks equal
-        budget/utility ratios by position; needs the semantic characterisation of the sweep, C02_sweep_perm)
+   Equal Shares, iterated AND irresolute (mes_iter_irresolute): independence of the enumeration order and of the
+   voter order,
+     Theorem mes_iter_irresolute_presentation_indep : forall x e2 P' tb' fuel inc, ... ->
+       mes_iter_irresolute fuel x inc = Some L1 ->
+       mes_iter_irresolute fuel (with_voters (with_enum x e2) P' tb') inc = Some L2 -> forall X, In X L1 <-> In X L2.
+   (C08's characterisation of the irresolute run is stated for the plain rule's endowment only.)  Every other
+   entry point of Equal Shares is covered: resolute, irresolute, iterated resolute; scaling for all four.
 *)
